@@ -54,7 +54,7 @@ fn main() {
     }).heavy());
     // round trips on large diagrams (sizes 33 .. 129)
     let sizes: Vec<usize> = if ctx.quick() { vec![33, 65] } else { vec![33, 64, 65, 129] };
-    let big: Vec<_> = ohmc::props::structured::shapes_at(&sizes, false).into_iter().map(|x| x.1).collect();
+    let big: Vec<_> = ohmc::props::structured::shapes_at_labelled(&sizes, false).into_iter().map(|x| x.1).collect();
     ctx.run_slice(Slice::new(format!("round-trips-structured-large[sizes {:?}: {} diagrams]", sizes, big.len()), big.len() as u64, |i, loc| check_roundtrip_strict(&big[i as usize], loc)));
     let meta = Meta {
         rule: "every strict diagram (from_strict/to_strict round trips as exact data, both directions); every ordered pair of label-consistent lax diagrams with pending unifications (compose defined iff types match, lax_compose iff arities match, both strictify to the strict composite up to iso; tensor; tensor_assign / append / coproduct_assign equal the pure forms as data); every label-consistent lax diagram (dagger, to_strict vs the reference quotient); all pairs of object lists (identity, twist, singleton); all cospans (spider)".into(),
